@@ -36,10 +36,39 @@ Proof.
   destruct (Byte.eqb x y); [specialize (IH b)|]; lia.
 Qed.
 
+Lemma letter_printable b : letter b -> printable b = true.
+Proof. unfold letter. destruct b; vm_compute; intros H; try discriminate H; reflexivity. Qed.
+
+(** the configurations of this file: the speller settings of the synthetic schemas (alphabet a-z,
+    delimiters blank and apostrophe, no use_space), page size 5, and one of the two chains
+      [speller, selector, navigator, editor] / [abc_segmentor, fallback_segmentor]
+      [speller, punctuator, selector, navigator, editor] / [abc_segmentor, punct_segmentor, fallback_segmentor]
+    the second under the hypothesis that no spelling letter is a key of the punctuation tables;
+    everything else (editor flavour, punctuation tables, translators, source facts) is arbitrary *)
+Definition no_letter_punct (cfg : config) : Prop :=
+  forall b, letter b -> pd_assoc (cf_punct_half cfg) b = None /\ pd_assoc (cf_punct_full cfg) b = None.
+Definition edit_chain (cfg : config) : Prop :=
+  (cf_processors cfg = [PSpeller; PSelector; PNavigator; PEditor] /\ cf_segmentors cfg = [SgAbc; SgFallback]) \/
+  (cf_processors cfg = [PSpeller; PPunctuator; PSelector; PNavigator; PEditor] /\
+   cf_segmentors cfg = [SgAbc; SgPunct; SgFallback] /\ no_letter_punct cfg).
+Definition edit_cfg (cfg : config) : Prop :=
+  cf_alphabet cfg = lower_alphabet /\ cf_delims cfg = [x20; x27] /\ cf_initials cfg = lower_alphabet /\
+  cf_finals cfg = [] /\ cf_use_space cfg = false /\ cf_page_size cfg = 5%Z /\ cf_select_keys cfg = [] /\
+  edit_chain cfg.
+
 Section Edit.
-Variable fluid dlog : bool.
+Variable cfg : config.
 Variable translate : bytes -> seginfo -> list cand.
-Let cfg := synth_cfg fluid dlog.
+Hypothesis Hcfg : edit_cfg cfg.
+Local Notation fluid := (cf_fluid cfg).
+Let Halpha : cf_alphabet cfg = lower_alphabet := proj1 Hcfg.
+Let Hdelims : cf_delims cfg = [x20; x27] := proj1 (proj2 Hcfg).
+Let Hinitials : cf_initials cfg = lower_alphabet := proj1 (proj2 (proj2 Hcfg)).
+Let Hfinals : cf_finals cfg = [] := proj1 (proj2 (proj2 (proj2 Hcfg))).
+Let Husp : cf_use_space cfg = false := proj1 (proj2 (proj2 (proj2 (proj2 Hcfg)))).
+Let Hpsz : cf_page_size cfg = 5%Z := proj1 (proj2 (proj2 (proj2 (proj2 (proj2 Hcfg))))).
+Let Hsk : cf_select_keys cfg = [] := proj1 (proj2 (proj2 (proj2 (proj2 (proj2 (proj2 Hcfg)))))).
+Let Hchain : edit_chain cfg := proj2 (proj2 (proj2 (proj2 (proj2 (proj2 (proj2 Hcfg)))))).
 
 (** the composition of a state reachable with the editing alphabet *)
 Definition seg_ok (g : segment) : Prop :=
@@ -57,10 +86,10 @@ Definition ctx_ok (c : context) : Prop :=
 Lemma abc_scan_letters l : Forall letter l -> forall first e, abc_scan cfg l first e = length l.
 Proof.
   induction 1 as [|b l Hb Hl IH]; intros first e; [reflexivity|].
-  cbn [abc_scan length]. unfold cfg, synth_cfg, synth_cfg_with; cbn [cf_alphabet cf_delims cf_initials cf_finals].
+  cbn [abc_scan length]. rewrite Halpha, Hdelims, Hinitials, Hfinals.
   rewrite Hb. rewrite (letter_not_delim b Hb). cbn [mem_byte existsb negb andb orb].
   rewrite !andb_false_r. cbn [negb andb orb].
-  fold cfg. now rewrite IH.
+  now rewrite IH.
 Qed.
 
 (** ---- Reset keeps nothing or the one segment, if it ends inside the common prefix ---- *)
@@ -80,27 +109,39 @@ Qed.
 
 Definition fresh_seg (n : nat) : segment := seg_with_tags (new_segment 0 n) [TAbc].
 
-Lemma calc_loop_unfold fuel caret sg :
-  calc_loop cfg fuel caret sg =
+Lemma calc_loop_unfold o h fuel caret sg :
+  calc_loop cfg o h fuel caret sg =
   if has_finished sg then (sg, true)
   else match fuel with
        | 0 => (sg, false)
        | S f =>
          let start_pos := cur_start sg in
-         let sg2 := fallback_proceed (abc_proceed cfg sg) in
+         let sg2 := seg_round cfg o h sg in
          if start_pos =? cur_end sg2 then (sg2, true)
          else if caret <=? start_pos then (sg2, true)
-         else calc_loop cfg f caret (if has_finished sg2 then sg2 else fst (forward sg2))
+         else calc_loop cfg o h f caret (if has_finished sg2 then sg2 else fst (forward sg2))
        end.
 Proof. destruct fuel; reflexivity. Qed.
 
+(** a spelling letter is no punctuation key (second chain) *)
+Lemma punct_lookup_letter o b : no_letter_punct cfg -> letter b -> punct_lookup cfg o b = None.
+Proof. intros Hn Hb. unfold punct_lookup. destruct (Hn b Hb) as (A & B). destruct (opts_get o opt_full_shape); assumption. Qed.
+
 (** one round of the segmentors over an all-letters input that is not yet covered *)
-Lemma round_letters X segs :
+Lemma round_letters o h X segs :
   Forall letter X -> X <> [] ->
   (segs = [] \/ exists g, segs = [g] /\ seg_ok g /\ s_end g < length X) ->
-  fallback_proceed (abc_proceed cfg (mkSegm X segs)) = mkSegm X [fresh_seg (length X)].
+  seg_round cfg o h (mkSegm X segs) = mkSegm X [fresh_seg (length X)].
 Proof.
   intros Hl Hne Hs.
+  assert (Hround : seg_round cfg o h (mkSegm X segs) = fallback_proceed (abc_proceed cfg (mkSegm X segs)) \/
+                   (no_letter_punct cfg /\
+                    seg_round cfg o h (mkSegm X segs) =
+                    (let (sg2, cont) := punct_proceed cfg o h (abc_proceed cfg (mkSegm X segs)) in
+                     if cont then fallback_proceed sg2 else sg2))).
+  { unfold seg_round. destruct Hchain as [(_ & ->) | (_ & -> & Hn)]; [left; reflexivity | right; split; [exact Hn|]].
+    cbn [run_segmentors segmentor_proceed]. destruct (punct_proceed cfg o h (abc_proceed cfg (mkSegm X segs))) as [sg2 cont].
+    destruct cont; reflexivity. }
   assert (HX : 0 < length X) by (destruct X; [congruence | cbn; lia]).
   assert (Habc : abc_proceed cfg (mkSegm X segs) = mkSegm X [fresh_seg (length X)]).
   { unfold abc_proceed.
@@ -115,15 +156,20 @@ Proof.
       replace (length X <? s_end g) with false by (symmetry; apply Nat.ltb_ge; lia).
       replace (s_end g <? length X) with true by (symmetry; apply Nat.ltb_lt; lia).
       reflexivity. }
-  rewrite Habc. unfold fallback_proceed.
-  cbn [cur_len sg_segs fresh_seg seg_with_tags new_segment s_end s_start]. rewrite Nat.sub_0_r.
-  replace (0 <? length X) with true by (symmetry; apply Nat.ltb_lt; lia). reflexivity.
+  assert (Hfb : fallback_proceed (mkSegm X [fresh_seg (length X)]) = mkSegm X [fresh_seg (length X)]).
+  { unfold fallback_proceed.
+    cbn [cur_len sg_segs fresh_seg seg_with_tags new_segment s_end s_start]. rewrite Nat.sub_0_r.
+    replace (0 <? length X) with true by (symmetry; apply Nat.ltb_lt; lia). reflexivity. }
+  destruct Hround as [-> | (Hn & ->)]; rewrite Habc; [exact Hfb|].
+  unfold punct_proceed. cbn [cur_start sg_segs sg_input fresh_seg seg_with_tags new_segment s_start].
+  destruct X as [|b X']; [congruence|]. cbn [nth_error]. inversion Hl as [|? ? Hb _]; subst.
+  rewrite (letter_printable b Hb). cbn [negb]. rewrite (punct_lookup_letter o b Hn Hb). exact Hfb.
 Qed.
 
-Lemma calc_loop_letters fuel caret X segs :
+Lemma calc_loop_letters o h fuel caret X segs :
   Forall letter X ->
   (segs = [] \/ exists g, segs = [g] /\ seg_ok g /\ s_end g <= length X) ->
-  exists l, calc_loop cfg (S fuel) caret (mkSegm X segs) = (mkSegm X l, true) /\
+  exists l, calc_loop cfg o h (S fuel) caret (mkSegm X segs) = (mkSegm X l, true) /\
     ((X = [] /\ l = []) \/
      (X <> [] /\ exists g, l = [g] /\ s_start g = 0 /\ s_end g = length X
                           /\ (s_status g = SGuess \/ s_status g = SVoid) /\ s_sel g = 0%N
@@ -146,7 +192,7 @@ Proof.
     + apply Nat.leb_gt in Efin.
       assert (Hs' : segs = [] \/ exists g, segs = [g] /\ seg_ok g /\ s_end g < length X).
       { destruct Hs as [-> | (g & -> & Hok & Hle)]; [auto|]. right. exists g. cbn [cur_end sg_segs] in Efin. auto. }
-      cbv zeta. rewrite (round_letters X segs Hl Hne Hs').
+      cbv zeta. rewrite (round_letters o h X segs Hl Hne Hs').
       assert (cur_start (mkSegm X segs) = 0) as ->.
       { destruct Hs' as [-> | (g & -> & (H0 & _) & _)]; [reflexivity | exact H0]. }
       cbn [cur_end sg_segs fresh_seg seg_with_tags new_segment s_end].
@@ -161,16 +207,16 @@ Proof.
         exists [fresh_seg (length X)]. split; [reflexivity|]. right. exact Hres.
 Qed.
 
-Lemma calc_segmentation_letters caret X segs :
+Lemma calc_segmentation_letters o h caret X segs :
   Forall letter X ->
   (segs = [] \/ exists g, segs = [g] /\ seg_ok g /\ s_end g <= length X) ->
-  exists l, calc_segmentation cfg caret (mkSegm X segs) = (mkSegm X l, true) /\
+  exists l, calc_segmentation cfg o h caret (mkSegm X segs) = (mkSegm X l, true) /\
     ((X = [] /\ l = []) \/
      (X <> [] /\ exists g, l = [g] /\ s_start g = 0 /\ s_end g = length X
                           /\ (s_status g = SGuess \/ s_status g = SVoid) /\ s_sel g = 0%N)).
 Proof.
   intros Hl Hs. unfold calc_segmentation. cbn [sg_input].
-  destruct (calc_loop_letters (length X) caret X segs Hl Hs) as (l & -> & Hr).
+  destruct (calc_loop_letters o h (length X) caret X segs Hl Hs) as (l & -> & Hr).
   destruct Hr as [(-> & ->) | (Hne & g & -> & H0 & H1 & H2 & H3 & H4)].
   - exists []. cbn. auto.
   - exists [g]. cbn [sg_segs]. unfold trim. cbn [sg_segs].
@@ -233,7 +279,7 @@ Proof.
         cbn in E. discriminate.
       + intros ->. now rewrite firstn_nil. }
   destruct HX as (X & l & -> & HlX & HXnil & Hl1).
-  destruct (calc_segmentation_letters (cx_caret c) X l HlX Hl1) as (l2 & -> & Hr).
+  destruct (calc_segmentation_letters (cx_opts c) (cx_hist c) (cx_caret c) X l HlX Hl1) as (l2 & -> & Hr).
   destruct Hr as [(-> & ->) | (Hne & g & -> & H0 & H1 & H2 & H3)].
   - (* empty input *)
     cbn. unfold ctx_ok. cbn. repeat split; auto.
@@ -378,7 +424,7 @@ Proof.
   replace (127 <=? Z.of_N (N_of_byte b))%Z with false by (symmetry; apply Z.leb_gt; lia).
   replace (Z.of_N (N_of_byte b) =? XK_space)%Z with false by (symmetry; apply Z.eqb_neq; unfold XK_space; lia).
   cbn [orb andb]. rewrite byte_of_code.
-  unfold cfg, synth_cfg, synth_cfg_with. cbn [cf_alphabet cf_delims cf_initials]. fold (synth_cfg fluid dlog). fold cfg.
+  rewrite ?Halpha, ?Hdelims, ?Hinitials, ?Husp.
   unfold letter in Hb. rewrite Hb. reflexivity.
 Qed.
 
@@ -393,7 +439,7 @@ Lemma sel_keymap_init c : cx_opts c = init_opts -> sel_keymap c = keymap_of_bind
 Proof. intros H. unfold sel_keymap. now rewrite (opts_init_vertical c H), (opts_init_linear c H). Qed.
 
 Lemma select_key_index_special code : special code -> select_key_index cfg (mkKey code 0) = (-1)%Z.
-Proof. intros H. repeat (destruct H as [<- | H]; [vm_compute; reflexivity|]). destruct H. Qed.
+Proof. intros H. unfold select_key_index. rewrite Hsk. cbn [negb andb k_code]. repeat (destruct H as [<- | H]; [vm_compute; reflexivity|]). destruct H. Qed.
 
 Lemma sel_find_special code :
   special code ->
@@ -577,7 +623,7 @@ Lemma ed_find_special code :
   else if (code =? XK_Delete)%Z then Some EdDeleteChar
   else if (code =? XK_Escape)%Z then Some EdCancelComposition else None.
 Proof.
-  intros H. unfold editor_keymap, cfg, synth_cfg, synth_cfg_with. cbn [cf_fluid]. clear cfg.
+  intros H. unfold editor_keymap.
   destruct fluid; repeat (destruct H as [<- | H]; [vm_compute; reflexivity|]); destruct H.
 Qed.
 
@@ -687,7 +733,7 @@ Proof.
   { unfold menu_view. destruct (negb (has_menu (st_ctx s))); [reflexivity|].
     destruct Hs as [-> | (g & -> & (_ & _ & _ & G3))]; [reflexivity|].
     destruct (s_menu g) as [m|]; [|reflexivity]. rewrite G3.
-    unfold cfg, synth_cfg, synth_cfg_with. cbn [cf_page_size].
+    rewrite Hpsz, ?Hsk.
     change (int_of_size 0) with 0%Z. change (Z.quot 0 5) with 0%Z.
     change (size_of_int 5) with 5%N. change (size_of_int 0) with 0%N.
     unfold create_page. change (size_wrap (5 * 0)) with 0%N. change (size_wrap (0 + 5)) with 5%N.
@@ -730,6 +776,27 @@ Qed.
 Lemma shape_noop s k : ctx_ok (st_ctx s) -> shape_process s k = (s, PNoop).
 Proof. intros Hok. unfold shape_process. rewrite (opts_init_full_shape _ (proj1 (proj2 (proj2 (proj2 Hok))))). reflexivity. Qed.
 
+(** the chain: the punctuator (second chain) declines every key of the alphabet that reaches it *)
+Lemma punctuator_nonletter s code : (127 <= code)%Z -> punctuator_process cfg translate s (mkKey code 0) = (s, PNoop).
+Proof.
+  intros H. unfold punctuator_process. cbn [k_release k_ctrl k_alt k_super k_mod k_code Z.testbit orb].
+  replace (127 <=? code)%Z with true by (symmetry; apply Z.leb_le; assumption).
+  now rewrite orb_true_r.
+Qed.
+
+Definition chain4 : list (state -> key -> state * presult) :=
+  [speller_process cfg translate; selector_process cfg translate; navigator_process cfg translate; editor_process cfg translate].
+
+Lemma run_chain s k :
+  (forall s', punctuator_process cfg translate s' k = (s', PNoop)) \/
+  (exists s', speller_process cfg translate s k = (s', PAccepted)) ->
+  run_processors (processors cfg translate) s k = run_processors chain4 s k.
+Proof.
+  intros H. unfold processors, chain4. destruct Hchain as [(-> & _) | (-> & _)]; [reflexivity|].
+  cbn [map proc_of run_processors]. destruct H as [Hn | (s' & ->)]; [|reflexivity].
+  destruct (speller_process cfg translate s k) as [s1 r1]. destruct r1; try reflexivity. rewrite Hn. reflexivity.
+Qed.
+
 Lemma process_key_ok s b k :
   good s b -> ekey_ok cfg k = true ->
   good (fst (process_key cfg translate s (mkKey (key_code_of k) 0))) (buf_step b k) /\
@@ -742,9 +809,10 @@ Proof.
   - (* a spelling letter: the speller accepts *)
     destruct k as [ch| | | | | | |]; try discriminate Elet.
     assert (Hch : letter ch).
-    { unfold ekey_ok, cfg, synth_cfg, synth_cfg_with in Hk. cbn [cf_alphabet cf_initials] in Hk.
+    { unfold ekey_ok in Hk. rewrite Halpha, Hinitials in Hk.
       apply andb_prop in Hk. apply Hk. }
-    unfold process_key, processors. cbn [run_processors key_code_of].
+    unfold process_key. rewrite run_chain by (right; eexists; apply (speller_letter s ch Hch)).
+    unfold chain4. cbn [run_processors key_code_of].
     rewrite (speller_letter s ch Hch). cbv beta iota. cbn [fst snd].
     destruct (push_input_ok (st_ctx s) ch Hok Hch) as (P1 & P2 & P3).
     assert (Hbe : begin_editing (push_input cfg translate (st_ctx s) ch) = push_input cfg translate (st_ctx s) ch)
@@ -756,7 +824,8 @@ Proof.
   - (* one of the seven other keys *)
     pose proof (special_of k Elet) as Hsp.
     assert (Hcar : car <= length inp) by apply Hok.
-    unfold process_key, processors. cbn [run_processors].
+    unfold process_key. rewrite run_chain by (left; intros s'; apply punctuator_nonletter, special_ge, Hsp).
+    unfold chain4. cbn [run_processors].
     rewrite (speller_nonletter s _ (special_ge _ Hsp)). cbv beta iota.
     rewrite (selector_special s _ Hok Hsp). cbv beta iota.
     rewrite (navigator_special s _ Hok Hsp), (nav_find_k k Elet).
@@ -766,7 +835,9 @@ Proof.
     + (* empty buffer: nobody handles the key *)
       assert (Ein : inp = []) by (destruct inp; [reflexivity | discriminate]).
       cbv beta iota. rewrite (editor_special s _ Hok Hsp), (composing_iff _ Hok). fold inp. rewrite Eemp. cbn [negb].
-      cbv beta iota. rewrite (shape_noop s _ Hok). cbn [fst snd].
+      cbv beta iota zeta.
+      rewrite (shape_noop (on_ctx s (fun c => ctx_with_hist c (hist_push_key (cx_hist c) (mkKey (key_code_of k) 0)))) _ Hok).
+      cbn [fst snd].
       assert (Hc0 : car = 0) by (rewrite Ein in Hcar; cbn in Hcar; lia).
       split; [|rewrite Ein; reflexivity].
       assert (Hst : buf_step (mkBuf inp car) k = mkBuf inp car).
@@ -861,11 +932,11 @@ Qed.
 
 Lemma init_good : good (init_state cfg) buf_empty.
 Proof.
-  unfold good, ctx_is, ctx_ok, init_state, cfg, synth_cfg, synth_cfg_with, init_opts. cbn.
+  unfold good, ctx_is, ctx_ok, init_state, init_opts. cbn.
   repeat split; auto. left; reflexivity.
 Qed.
 
-Theorem edit_refines_buffer keys :
+Theorem edit_refines_buffer_gen keys :
   Forall (fun k => ekey_ok cfg k = true) keys ->
   let r := run cfg translate (map op_of_ekey keys) in
   cx_input (st_ctx (fst r)) = b_text (buf_run keys) /\
@@ -878,3 +949,37 @@ Proof.
 Qed.
 
 End Edit.
+
+(** the synthetic schemas are such configurations *)
+Lemma synth_edit_cfg fluid dlog : edit_cfg (synth_cfg fluid dlog).
+Proof. repeat (split; [reflexivity|]). left. split; reflexivity. Qed.
+
+Lemma synth_no_letter_punct fluid dlog : no_letter_punct (synth_punct_cfg fluid dlog).
+Proof.
+  intros b Hb. unfold letter in Hb. destruct fluid; destruct b; vm_compute in Hb; try discriminate Hb; split; reflexivity.
+Qed.
+Lemma synth_punct_edit_cfg fluid dlog : edit_cfg (synth_punct_cfg fluid dlog).
+Proof.
+  repeat (split; [reflexivity|]). right. split; [reflexivity|]. split; [reflexivity|]. apply synth_no_letter_punct.
+Qed.
+
+(** the statement as it was before the chains became configurable (synth_express / synth_fluid) *)
+Theorem edit_refines_buffer (fluid dlog : bool) (translate : bytes -> seginfo -> list cand) keys :
+  Forall (fun k => ekey_ok (synth_cfg fluid dlog) k = true) keys ->
+  let r := run (synth_cfg fluid dlog) translate (map op_of_ekey keys) in
+  cx_input (st_ctx (fst r)) = b_text (buf_run keys) /\
+  cx_caret (st_ctx (fst r)) = b_caret (buf_run keys) /\
+  st_commit (fst r) = [] /\
+  map edit_summary (snd r) = map (fun x => Some (x, [])) (buf_trace buf_empty keys).
+Proof. apply edit_refines_buffer_gen, synth_edit_cfg. Qed.
+
+(** and with the punctuator, punct_segmentor and punct_translator in the chains
+    (synth_punct_express / synth_punct_fluid) *)
+Theorem edit_refines_buffer_punct (fluid dlog : bool) (translate : bytes -> seginfo -> list cand) keys :
+  Forall (fun k => ekey_ok (synth_punct_cfg fluid dlog) k = true) keys ->
+  let r := run (synth_punct_cfg fluid dlog) translate (map op_of_ekey keys) in
+  cx_input (st_ctx (fst r)) = b_text (buf_run keys) /\
+  cx_caret (st_ctx (fst r)) = b_caret (buf_run keys) /\
+  st_commit (fst r) = [] /\
+  map edit_summary (snd r) = map (fun x => Some (x, [])) (buf_trace buf_empty keys).
+Proof. apply edit_refines_buffer_gen, synth_punct_edit_cfg. Qed.
